@@ -1329,6 +1329,7 @@ class Interp:
         if not enter:
             self.loop_ctx.pop()
             return
+        self.oblige('cover/inv+guard', False, 'cover')    # vacuity guard: invariant and guard are satisfiable together
         try:
             self.exec_block(s.body)
         except ContinueSig:
